@@ -11,7 +11,7 @@ RULE = ("Random solver-friendly OCPs (2-3 states, 1-2 controls, mildly nonlinear
         "constraints, non-zero t0) x {MultipleShooting rk, SingleShooting rk, DirectCollocation} x N, M x uniform / "
         "geometric grids.  F = ocp.to_function(name, args, results) with args drawn from {value(x0 parameter), "
         "sample(per-interval parameter, 'control-'), value(model parameter), sampled controls / states as initial "
-        "guesses, 'z' for DirectCollocation} and results = sampled states, controls and a value expression.  For 2-3 "
+        "guesses, the guess of a free horizon or the value of a parametric one (also with localized / free time grids), 'z' for DirectCollocation} and results = sampled states, controls and a value expression.  For 2-3 "
         "random argument values F is compared with the imperative pipeline (set_value, set_initial, solve, sol.sample / "
         "sol.value) run on a second instance of the same specification with the same ipopt options; a parameter that is "
         "NOT listed is changed with set_value after the first transcription and before to_function and must keep that "
@@ -39,10 +39,21 @@ def gen_cases(rng, tier):
             "args": sorted(rng.sample(["x0", "ref", "q", "u_guess", "x_guess"], rng.randint(1, 4))),
             "zarg": cls == "DC" and rng.random() < 0.0,
             "limited": rng.random() < 0.5, "persistent": rng.random() < 0.4,
+            "horizon": rng.choice(["num", "num", "freeT", "paramT", "freet0"]),
             "values": [], "q_first": ocpgen.rnd(rng, 0.2, 1.0, 3), "q_current": ocpgen.rnd(rng, 0.2, 1.0, 3),
             "seed": rng.getrandbits(32)}
+        if case["horizon"] != "num":
+            # the horizon's guess (FreeTime) or value (parameter) is an argument; grids with variables of their own
+            case["grid"] = rng.choice([case["grid"], {"cls": "Uniform", "localize_T": True}, {"cls": "Uniform", "localize_t0": True},
+                                       {"cls": "Geometric", "growth": 1.5, "localize_T": True}, {"cls": "Free"}])
+            if rng.random() < 0.75:
+                case["args"] = sorted(case["args"] + ["Th"])
+        if cls == "SS" and rng.random() < 0.5:
+            # the only state guess SingleShooting can take: the initial state
+            case["args"] = sorted(set(case["args"]) - {"x_guess"} | {"x0_guess"})
         for _ in range(2 if tier == "quick" else 3):
             case["values"].append({
+                "Th": ocpgen.rnd(rng, 1.0, 3.0, 2), "x0_guess": [ocpgen.rnd(rng, -0.5, 0.5, 3) for _ in range(case["nx"])],
                 "x0": [ocpgen.rnd(rng, -1, 1, 3) for _ in range(case["nx"])],
                 "ref": [ocpgen.rnd(rng, -1, 1, 3) for _ in range(N)],
                 "q": ocpgen.rnd(rng, 0.2, 1.0, 3),
@@ -62,7 +73,19 @@ def make_ocp(case):
     from ..gen import build
     nx, N = case["nx"], case["N"]
     c = case["coef"]
-    ocp = rockit.Ocp(t0=case["t0"], T=case["T"])
+    hz = case.get("horizon", "num")
+    pT = None
+    if hz == "freeT":
+        ocp = rockit.Ocp(t0=case["t0"], T=rockit.FreeTime(case["T"]))
+    elif hz == "freet0":
+        ocp = rockit.Ocp(t0=rockit.FreeTime(case["t0"]), T=case["T"])
+    elif hz == "paramT":
+        ocp = rockit.Ocp(t0=case["t0"])
+        pT = ocp.parameter()
+        ocp.set_T(pT)
+        ocp.set_value(pT, case["T"])
+    else:
+        ocp = rockit.Ocp(t0=case["t0"], T=case["T"])
     x = ocp.state(nx)
     u = ocp.control()
     x0p = ocp.parameter(nx)
@@ -74,6 +97,11 @@ def make_ocp(case):
     ocp.set_der(x, ca.vertcat(*rhs))
     ocp.add_objective(ocp.integral(u ** 2 + (x[0] - ref) ** 2 + 0.1 * ca.sumsqr(x)))
     ocp.add_objective(ocp.at_tf(ca.sumsqr(x)))
+    if hz == "freeT":
+        ocp.add_objective(0.3 * (ocp.T - 2.0) ** 2)
+        ocp.subject_to(ocp.T >= 0.5)
+    if hz == "freet0":
+        ocp.add_objective(0.3 * (ocp.t0 - 0.4) ** 2)
     ocp.subject_to(ocp.at_t0(x) == x0p)
     ocp.subject_to(-3 <= (u <= 3))
     ocp.subject_to(x[0] <= 2.5)
@@ -90,7 +118,7 @@ def make_ocp(case):
     # 'limited': stop after two iterations, so that the outputs depend on the start point (initial-guess arguments)
     ocp.solver("ipopt", {"ipopt.print_level": 0, "print_time": False, "ipopt.tol": 1e-10,
                          "ipopt.max_iter": 2 if case.get("limited") else 200})
-    return ocp, {"x": x, "u": u, "x0": x0p, "ref": ref, "q": q}
+    return ocp, {"x": x, "u": u, "x0": x0p, "ref": ref, "q": q, "pT": pT}
 
 
 def imperative_assign(ocp, s, vals, args_sel, case, containers=None):
@@ -117,11 +145,20 @@ def imperative_assign(ocp, s, vals, args_sel, case, containers=None):
         ocp.set_initial(s["u"], box("u_guess", ca.DM(vals["u_guess"]).T))
     if "x_guess" in args_sel:
         ocp.set_initial(s["x"], box("x_guess", ca.DM(np.array(vals["x_guess"]))))
+    if "x0_guess" in args_sel:
+        ocp.set_initial(s["x"], box("x0_guess", vals["x0_guess"]))
+    if "Th" in args_sel:
+        if case.get("horizon") == "freeT":
+            ocp.set_initial(ocp.T, box("Th", vals["Th"]))
+        elif case.get("horizon") == "freet0":
+            ocp.set_initial(ocp.t0, box("Th", vals["Th"]))
+        else:
+            ocp.set_value(s["pT"], box("Th", vals["Th"]))
 
 
 def run_case(case):
     import casadi as ca
-    res = {"sig": "%s|%s|N%dM%d|nx%d|%s|%s%s" % (case["cls"], C.grid_tag(case["grid"]), case["N"], case["M"], case["nx"],
+    res = {"sig": "%s|%s|%s|N%dM%d|nx%d|%s|%s%s" % (case["cls"], case.get("horizon", "num"), C.grid_tag(case["grid"]), case["N"], case["M"], case["nx"],
                                               "+".join(case["args"]), "limited" if case.get("limited") else "converged",
                                               "|persistent" if case.get("persistent") else ""),
            "evals": 0, "violations": [], "counters": {"function_calls": 0, "outputs_compared": 0, "not_converged": 0}}
@@ -143,8 +180,13 @@ def run_case(case):
                 arg_exprs.append(C.call("sample", ocpA.sample, sA["u"], grid="control-")[1])
             elif a == "x_guess":
                 arg_exprs.append(C.call("sample", ocpA.sample, sA["x"], grid="control")[1])
+            elif a == "Th":
+                arg_exprs.append(C.call("value", ocpA.value, ocpA.T if case["horizon"] == "freeT" else (
+                    ocpA.t0 if case["horizon"] == "freet0" else sA["pT"])))
+            elif a == "x0_guess":
+                arg_exprs.append(C.call("value", ocpA.value, ocpA.at_t0(sA["x"])))
         results = [ocpA.sample(sA["x"], grid="control")[1], ocpA.sample(sA["u"], grid="control-")[1],
-                   ocpA.value(ocpA.at_tf(sA["x"][0]) + ocpA.T)]
+                   ocpA.value(ocpA.at_tf(sA["x"][0]) + ocpA.T), ocpA.sample(ocpA.t, grid="control")[1]]
         # a parameter that is not listed changes after the first transcription and keeps that current value
         if "q" not in args_sel:
             C.call("set_value(transcribed)", ocpA.set_value, sA["q"], case["q_current"])
@@ -167,7 +209,7 @@ def run_case(case):
         ins = []
         for a in args_sel:
             v = vals[a]
-            ins.append(ca.DM(v) if a in ("x0", "q") else (ca.DM(v).T if a in ("ref", "u_guess") else ca.DM(np.array(v))))
+            ins.append(ca.DM(v) if a in ("x0", "q", "Th", "x0_guess") else (ca.DM(v).T if a in ("ref", "u_guess") else ca.DM(np.array(v))))
         try:
             outA = F(*ins)
             if not isinstance(outA, (list, tuple)):
@@ -185,7 +227,14 @@ def run_case(case):
                 cont = None
             else:
                 ocpB, sB, cont = persistent
-            imperative_assign(ocpB, sB, vals, args_sel, case, cont)
+            try:
+                imperative_assign(ocpB, sB, vals, args_sel, case, cont)
+                ocpB._transcribed       # (what solve() does first: a raise here is not a solver failure)
+            except Exception as e_:  # noqa
+                # assigning supported values must not raise (a failing solve below is 'not converged', this is not)
+                res["violations"].append(C.exc_violation(ID, C.RockitRaised("set_value / set_initial / transcribe", e_),
+                                                         case["cls"] + "|" + "+".join(args_sel)))
+                break
             if case.get("limited"):
                 try:
                     sol = ocpB.solve_limited()
@@ -195,13 +244,14 @@ def run_case(case):
                 sol = ocpB.solve()
             outB = [np.array(sol.sample(sB["x"], grid="control")[1], dtype=float).T,
                     np.array(sol.sample(sB["u"], grid="control-")[1], dtype=float).reshape(1, -1),
-                    np.array(sol.value(ocpB.at_tf(sB["x"][0]) + ocpB.T), dtype=float).reshape(1, 1)]
+                    np.array(sol.value(ocpB.at_tf(sB["x"][0]) + ocpB.T), dtype=float).reshape(1, 1),
+                    np.array(sol.sample(ocpB.t, grid="control")[1], dtype=float).reshape(1, -1)]
         except Exception as e:  # noqa
             res["counters"]["not_converged"] += 1
             continue
         if persistent is not None:
             res["counters"]["persistent_rounds"] = res["counters"].get("persistent_rounds", 0) + 1
-        for name, a, bb in zip(("states", "controls", "value"), outA, outB):
+        for name, a, bb in zip(("states", "controls", "value", "times"), outA, outB):
             a = a.reshape(bb.shape) if a.size == bb.size else a
             res["evals"] += 1
             res["counters"]["outputs_compared"] += 1
